@@ -32,8 +32,10 @@ package websocket
 //@ define wsb(k) = ghostat(wsin, old(ghost(wspos)) + k)
 //@ define wsLenClass() = wsb(1) & 0x7f
 //@ define wsMasked() = wsb(1) & 0x80 != 0
-//@ define wsHdr() = 2 + ite(wsLenClass() == 126, 2, ite(wsLenClass() == 127, 8, 0))
-//@ define wsLen() = ite(wsLenClass() == 126, wsb(2) << 8 | wsb(3), ite(wsLenClass() == 127, wsb(2) << 56 | wsb(3) << 48 | wsb(4) << 40 | wsb(5) << 32 | wsb(6) << 24 | wsb(7) << 16 | wsb(8) << 8 | wsb(9), wsLenClass()))
+//@ define hdrOf(c) = 2 + ite(c == 126, 2, ite(c == 127, 8, 0))
+//@ define lenOf(c, b2, b3, b4, b5, b6, b7, b8, b9) = ite(c == 126, b2 << 8 | b3, ite(c == 127, b2 << 56 | b3 << 48 | b4 << 40 | b5 << 32 | b6 << 24 | b7 << 16 | b8 << 8 | b9, c))
+//@ define wsHdr() = hdrOf(wsLenClass())
+//@ define wsLen() = lenOf(wsLenClass(), wsb(2), wsb(3), wsb(4), wsb(5), wsb(6), wsb(7), wsb(8), wsb(9))
 //@ func (*Conn).ReadData props C20
 //@   requires c != nil && c.conn != nil
 //@   requires forall(k, 0, 1 << 62, 0 <= ghostat(wsin, k) && ghostat(wsin, k) <= 255)
@@ -53,3 +55,21 @@ package websocket
 //@   ensures implies(err == nil && wsMasked() && wsLenClass() == 126, forall(i, 0, len(data), int(data[i]) == wsb(8 + i) ^ wsb(4 + (i & 3))))
 //@   ensures implies(err == nil && wsMasked() && wsLenClass() == 127, forall(i, 0, len(data), int(data[i]) == wsb(14 + i) ^ wsb(10 + (i & 3))))
 //@   modifies c.maskKey, ghost(wspos)
+
+// Composition (C20: what ReadData decodes is what SendData encoded). For a message of n bytes
+// SendData's frame has second byte b1 and length bytes b2.. as its call-site obligations say
+// (n itself; 126 and n in 16 bits; 127 and n in 64 bits). Read back through the decoder's own
+// definitions (lenOf, hdrOf - the ones ReadData's postconditions are stated with) such a frame
+// is unmasked, announces exactly n bytes, places them right after the header SendData wrote,
+// and meets ReadData's precondition on the high length bytes.
+//@ define isByte(b) = 0 <= b && b <= 255
+//@ lemma frame_roundtrip props C20
+//@   var n, b1, b2, b3, b4, b5, b6, b7, b8, b9 int
+//@   assume 0 <= n && n <= 1 << 39 && isByte(b1) && isByte(b2) && isByte(b3) && isByte(b4) && isByte(b5) && isByte(b6) && isByte(b7) && isByte(b8) && isByte(b9)
+//@   assume implies(n <= 125, b1 == n)
+//@   assume implies(n > 125 && n < 65536, b1 == 126 && b2 << 8 | b3 == n)
+//@   assume implies(n >= 65536, b1 == 127 && b2 << 56 | b3 << 48 | b4 << 40 | b5 << 32 | b6 << 24 | b7 << 16 | b8 << 8 | b9 == n)
+//@   prove b1 & 0x80 == 0
+//@   prove lenOf(b1 & 0x7f, b2, b3, b4, b5, b6, b7, b8, b9) == n
+//@   prove hdrOf(b1 & 0x7f) == ite(n <= 125, 2, ite(n < 65536, 4, 10))
+//@   prove implies(b1 & 0x7f == 127, b2 == 0 && b3 == 0 && b4 == 0)
